@@ -711,6 +711,57 @@ func faulted(s []*tnode) [][]*tnode {
 	return out
 }
 
+// a set with one entry marked to vanish during the store, and the file to hold the writer at
+type vanishSet struct {
+	files []*tnode
+	hold  string
+}
+
+// vanishing returns every way of making one entry below a directory output disappear between
+// the listing of its directory and the archive writer's visit: each child (file, link or
+// subdirectory, at any depth) of each directory that is preceded, among the entries below that
+// same directory, by a regular file - the writer is held where it opens the last such file.
+func vanishing(s []*tnode) []vanishSet {
+	out := []vanishSet{}
+	for i := range s {
+		var visit func(path []int, d *tnode)
+		visit = func(path []int, d *tnode) {
+			if d.Kind != "dir" {
+				return
+			}
+			lastReg := ""
+			for j, ch := range d.Children {
+				if lastReg != "" {
+					c := cloneSet(s)
+					n := c[i]
+					for _, k := range path {
+						n = n.Children[k]
+					}
+					n.Children[j].Vanish = true
+					out = append(out, vanishSet{c, lastReg})
+				}
+				visit(append(append([]int{}, path...), j), ch)
+				ch.each(func(t *tnode) {
+					if t.Kind == "file" {
+						lastReg = t.Name
+					}
+				})
+			}
+		}
+		visit(nil, s[i])
+	}
+	return out
+}
+
+// sets aimed at the vanishing-entry fault: directory outputs whose entries are preceded by regular files
+func vanishSets() [][]*tnode {
+	return [][]*tnode{
+		{dir("v", file("v/aa", 3000, 'a'), text("v/zz", "the last file of the output\n")), text("after.txt", "after")},
+		{text("before.txt", "b"), dir("w", text("w/a", "a"), dir("w/b", text("w/b/x", "x"), file("w/b/y", 513, 'y')), text("w/c", "c"), link("w/d", "a")), file("k", 1024, 'k')},
+		{dir("u", file("u/0", 0, 0), dir("u/e"), link("u/l", "0"), file("u/m", 512, 'm'))},
+	}
+}
+
 func setSize(s []*tnode) int {
 	n := 0
 	for _, t := range s {
@@ -740,10 +791,20 @@ func (sc *scenario) coq(w *worker, ob *observed, i int) string {
 		case strings.HasPrefix(r.GetFault, "cut"):
 			g = lib.App("GetCut", lib.N(uint64(ro.tarCut)))
 		}
+		if vp := sc.vanishPos(); vp >= 0 {
+			// the tree is printed intact (Vanish does not change a node's term): the model removes node vp itself
+			return lib.App("CHttpV", lib.Str(w.outDir), lib.List(files), lib.Nat(vp), lib.Bool(sc.PutFault == ""), g,
+				lib.Bool(ob.Stored), lib.N(uint64(ob.StoredLen)), lib.StrList(ob.Members), lib.Bool(ro.Hit), lib.List(ro.diskCoq))
+		}
 		return lib.App("CHttp", lib.Str(w.outDir), lib.List(files), lib.Bool(sc.PutFault == ""), g,
 			lib.Bool(ob.Stored), lib.N(uint64(ob.StoredLen)), lib.StrList(ob.Members), lib.Bool(ro.Hit), lib.List(ro.diskCoq))
 	}
 	all := allHealthy(sc.Files) && sc.StoreStyle != "head-fail" && sc.StoreStyle != "atomic-head-fail"
+	if vp := sc.vanishPos(); vp >= 0 {
+		return lib.App("CCmdV", lib.Str(w.outDir), lib.List(files), lib.Nat(vp), lib.Opt(ob.Stored, lib.N(uint64(ob.StoredLen))), lib.Bool(all),
+			lib.Opt(r.RetrCut >= 0, lib.N(uint64(max(r.RetrCut, 0)))), lib.Bool(r.RetrExit == 0),
+			lib.StrList(ob.Members), lib.Bool(ro.Hit), lib.List(ro.diskCoq))
+	}
 	return lib.App("CCmd", lib.Str(w.outDir), lib.List(files), lib.Opt(ob.Stored, lib.N(uint64(ob.StoredLen))), lib.Bool(all),
 		lib.Opt(r.RetrCut >= 0, lib.N(uint64(max(r.RetrCut, 0)))), lib.Bool(r.RetrExit == 0),
 		lib.StrList(ob.Members), lib.Bool(ro.Hit), lib.List(ro.diskCoq))
@@ -754,26 +815,28 @@ func main() {
 	lib.Main("C13", func(c *lib.Ctx) {
 		c.Model("From PlzV Require Import Model.C13.", "C13.case", "C13.check")
 		c.Rule("output sets (10 fixed adversarial + random: 1-5 outputs, files of sizes around the 512-byte tar block, symlinks, nested directories) " +
-			"x every read-fault position (a missing output inserted at / substituted for each list position, an unarchivable socket at each position inside each directory output) " +
+			"x every read-fault position (a missing output inserted at / substituted for each list position, an unarchivable socket at each position inside each directory output, " +
+			"and an entry below a directory output - file, link or subtree at any depth - REMOVED DURING the store after its directory was listed and before the archive writer " +
+			"reaches it: the writer is stopped by a file lease where it opens the regular file in front of it, or the store command itself removes the entry midway) " +
 			"x cache (httpCache against an in-process server; cmdCache with plain, tmp+mv, pipeline, pipeline+tmp+mv, exec'd and failing store commands) " +
 			"x transport faults (PUT aborted mid-body / refused; GET body cut at sampled offsets with Content-Length, chunked and close-delimited framing; non-200 status; " +
 			"retrieve command output cut at sampled offsets, non-zero exit). One evaluation = one store followed by one retrieve into an empty output directory; " +
 			"distinct = distinct (tree, cache, store fault, retrieve fault); non-trivial = at least one fault injected and at least one readable output")
 
-		root, err := os.MkdirTemp("", "c13-")
-		must(err)
-		defer os.RemoveAll(root)
-		must(os.Chdir(root))
-
 		var scs []*scenario
 		var one struct {
 			Scenario *scenario `json:"scenario"`
 		}
-		if c.ReadReplay(&one) && one.Scenario != nil {
+		if c.ReadReplay(&one) && one.Scenario != nil { // before the chdir: the replay path may be relative
 			scs = []*scenario{one.Scenario}
 		} else {
 			scs = generate(c)
 		}
+
+		root, err := os.MkdirTemp("", "c13-")
+		must(err)
+		defer os.RemoveAll(root)
+		must(os.Chdir(root))
 
 		nw := 6
 		workers := make([]*worker, nw)
@@ -813,7 +876,11 @@ func main() {
 				for k := 0; !bad && k < len(obs[i].Members); k++ {
 					bad = obs[i].Members[k] != front[k]
 				}
-				if bad {
+				if bad && sc.vanishNode() != nil {
+					c.Fail("store-went-on-after-vanished-entry", fmt.Sprintf("%s cache: an entry of a directory output was removed after the directory had been listed "+
+						"and before the archive writer reached it (%s); the stored entry holds %v, the members in front of the vanished entry are %v",
+						sc.Cache, obs[i].Vanished, obs[i].Members, front), map[string]any{"scenario": sc, "observed": obs[i]})
+				} else if bad {
 					c.Fail("store-went-on-after-read-fault", fmt.Sprintf("%s cache: the stored entry holds %v, the members in front of the unreadable output are %v",
 						sc.Cache, obs[i].Members, front), map[string]any{"scenario": sc, "observed": obs[i]})
 				}
@@ -841,14 +908,21 @@ func main() {
 				c.Oracle()
 				if ro.Hit && !ro.Complete {
 					class := "hit-with-incomplete-outputs"
+					// the archive stops exactly at the unreadable output (the known command-cache
+					// defect finishes THAT archive; an archive that goes on behind the fault is another matter)
+					stopsAtFault := sameStrings(ob.Members, membersBeforeFault(sc.Files, w.outDir))
 					switch {
+					case sc.Cache == "http" && sc.vanishNode() != nil:
+						class = "http-hit-after-entry-vanished-during-store"
+					case sc.Cache == "cmd" && sc.vanishNode() != nil && !(ob.Footer && stopsAtFault && !r.faulty()):
+						class = "cmd-hit-after-entry-vanished-during-store"
 					case sc.Cache == "http" && !allHealthy(sc.Files):
 						class = "http-hit-after-read-fault"
 					case sc.Cache == "http" && sc.PutFault != "":
 						class = "http-hit-after-put-fault"
 					case sc.Cache == "http" && r.GetFault != "":
 						class = "http-hit-on-failed-get"
-					case sc.Cache == "cmd" && !allHealthy(sc.Files) && ob.Footer && !r.faulty() &&
+					case sc.Cache == "cmd" && !allHealthy(sc.Files) && ob.Footer && stopsAtFault && !r.faulty() &&
 						sc.StoreStyle != "head-fail" && sc.StoreStyle != "atomic-head-fail":
 						// the store command received, after the read error, an archive that is closed
 						// with the end-of-archive marker and a clean end of input
@@ -878,11 +952,23 @@ func main() {
 	})
 }
 
+func sameStrings(a, b []string) bool {
+	if len(a) != len(b) {
+		return false
+	}
+	for i := range a {
+		if a[i] != b[i] {
+			return false
+		}
+	}
+	return true
+}
+
 func membersBeforeFault(files []*tnode, outDir string) []string {
 	out, stop := []string{}, false
 	for _, f := range files {
 		f.each(func(t *tnode) {
-			if t.Kind == "sock" || t.Kind == "missing" {
+			if t.Kind == "sock" || t.Kind == "missing" || t.Vanish {
 				stop = true
 			}
 			if !stop {
@@ -897,14 +983,19 @@ func unreadableNote(sc *scenario) string {
 	if allHealthy(sc.Files) {
 		return ""
 	}
+	if v := sc.vanishNode(); v != nil {
+		return " [" + v.Name + " was removed during the store, after its directory had been listed]"
+	}
 	return " [an output could not be read during the store]"
 }
 
 func keyOf(sc *scenario) string {
 	var b strings.Builder
-	fmt.Fprintf(&b, "%s|%s|%s|%d|%+v", sc.Cache, sc.PutFault, sc.StoreStyle, sc.StoreHead, sc.Retrs)
+	fmt.Fprintf(&b, "%s|%s|%s|%d|%+v|%s|%v", sc.Cache, sc.PutFault, sc.StoreStyle, sc.StoreHead, sc.Retrs, sc.Hold, sc.HoldByCmd)
 	for _, f := range sc.Files {
-		f.each(func(t *tnode) { fmt.Fprintf(&b, "|%s:%s:%d:%d:%s:%s", t.Kind, t.Name, t.Size, t.Byte, t.Text, t.Target) })
+		f.each(func(t *tnode) {
+			fmt.Fprintf(&b, "|%s:%s:%d:%d:%s:%s:%v", t.Kind, t.Name, t.Size, t.Byte, t.Text, t.Target, t.Vanish)
+		})
 	}
 	return b.String()
 }
@@ -917,6 +1008,9 @@ func storeFaultName(sc *scenario) string {
 			f.each(func(t *tnode) {
 				if t.Kind == "sock" {
 					k = "read-fault-inside-dir"
+				}
+				if t.Vanish {
+					k = "entry-vanished-during-store"
 				}
 			})
 		}
@@ -1108,6 +1202,32 @@ func generate(c *lib.Ctx) []*scenario {
 			add(&scenario{Cache: "cmd", Files: cloneSet(s), StoreStyle: lib.Pick(r, []string{"head-fail", "atomic-head-fail"}), StoreHead: lib.Pick(r, []int{n, n + 100, n / 2})})
 		}
 	}
-	c.Note("%d output sets (%d fixed), %d stores", len(sets), nfixed, len(scs))
+	// 5. an entry of a directory output vanishes DURING the store, after its directory was listed
+	// and before the archive writer reaches it (every such position of the dedicated sets, of
+	// the fixed sets and of the random sets), through both caches
+	nv, vstyles := 0, []string{"atomic", "pipe-atomic", "plain", "atomic", "pipe", "exec"}
+	vsets := append(vanishSets(), sets...)
+	for si, s := range vsets {
+		for vi, v := range vanishing(s) {
+			add(&scenario{Cache: "http", Files: v.files, Hold: v.hold, Why: "entry vanishes during the store"})
+			nv++
+			if c.Thor || si < 3 || vi == si%3 {
+				add(&scenario{Cache: "cmd", Files: cloneSet(v.files), Hold: v.hold, StoreStyle: vstyles[(si+vi)%len(vstyles)],
+					Why: "entry vanishes during the store"})
+				nv++
+			}
+		}
+	}
+	// 5b. the same fault produced by the store command itself: it removes the last entry of the
+	// directory after consuming 64 kB of a 300 kB first entry (the writer cannot be further than
+	// the pipe buffers ahead), and publishes (tmp + mv by sh itself) only if it runs to completion
+	for k := 0; k < c.Scale(1, 3); k++ {
+		zz := text("outdir/zz", "the last file of the output\n")
+		zz.Vanish = true
+		add(&scenario{Cache: "cmd", Files: []*tnode{dir("outdir", file("outdir/aa", 300000, 'a'), zz), text("tail.txt", "t")},
+			StoreStyle: "atomic-rm-midway", StoreHead: 65536, HoldByCmd: true, Why: "the store command removes an entry midway"})
+		nv++
+	}
+	c.Note("%d output sets (%d fixed), %d stores, %d of them with an entry vanishing during the store", len(sets), nfixed, len(scs), nv)
 	return scs
 }
